@@ -36,7 +36,7 @@ func isSeekStart(i ssa.Instruction) bool {
 	if !IsCall(i, seekName) {
 		return false
 	}
-	a := CallOf(i).Args
+	a := PArgs(CallOf(i))
 	return isConstInt(a[1], 0) && isConstInt(a[2], 0)
 }
 
@@ -287,16 +287,16 @@ func c06Refusal(c *Ctx, p *Prog) {
 			}
 			if call, ok := v.(*ssa.Call); ok {
 				if b, ok := call.Call.Value.(*ssa.Builtin); ok && (b.Name() == "len" || b.Name() == "cap") {
-					if _, fld, ok := FieldLoad(call.Call.Args[0]); ok && fld == "buf" {
+					if _, fld, ok := FieldLoad(PArgs(&call.Call)[0]); ok && fld == "buf" {
 						return IntC(L), true
 					}
 				}
 			}
 			if len(f.Params) == 3 {
-				if v == ssa.Value(f.Params[1]) {
+				if v == ssa.Value(ParamAt(f, 1)) {
 					return IntC(offset), true
 				}
-				if v == ssa.Value(f.Params[2]) {
+				if v == ssa.Value(ParamAt(f, 2)) {
 					return IntC(whence), true
 				}
 			}
@@ -332,10 +332,10 @@ func c06Refusal(c *Ctx, p *Prog) {
 	for _, st := range reset {
 		v := st.(*ssa.Store).Val
 		okv := false
-		if cv, ok := Peel(v).(*ssa.Convert); ok && cv.X == ssa.Value(f.Params[1]) {
+		if cv, ok := Peel(v).(*ssa.Convert); ok && cv.X == ssa.Value(ParamAt(f, 1)) {
 			okv = true
 		}
-		if v == ssa.Value(f.Params[1]) {
+		if v == ssa.Value(ParamAt(f, 1)) {
 			okv = true
 		}
 		c.Check("C06.R", "seek:reset-to-offset", p, st.Pos(), okv, "readHead is set to the requested offset", "readHead is reset to "+PathOf(v)+" rather than to the requested offset")
@@ -345,7 +345,7 @@ func c06Refusal(c *Ctx, p *Prog) {
 		okSize := false
 		for _, fn := range p.FuncsIn("agent/utils") {
 			for _, call := range Calls(fn, ModPath+"/agent/utils.newBufferedReadSeeker") {
-				if n, ok := ConstInt(CallOf(call).Args[1]); ok && n > 0 {
+				if n, ok := ConstInt(PArgs(CallOf(call))[1]); ok && n > 0 {
 					okSize = true
 					c.Infof("replay buffer size at %s: %d bytes", p.Pos(call.Pos()), n)
 				} else {
@@ -488,7 +488,7 @@ func c06Unblock(c *Ctx, p *Prog) {
 	}
 	// upload goroutine
 	c.Check("C06.E", "uploader:closes-pipe-reader", p, g1.Pos(), deferredOnEntry(g1, func(d *ssa.Defer) bool {
-		return CalleeName(&d.Call) == "(*io.PipeReader).Close" && PathOf(d.Call.Args[0]) == "result0:io.Pipe" && SameValue(d.Call.Args[0], Args(CallOf(post))[4])
+		return CalleeName(&d.Call) == "(*io.PipeReader).Close" && PathOf(PArgs(&d.Call)[0]) == "result0:io.Pipe" && SameValue(PArgs(&d.Call)[0], Args(CallOf(post))[4])
 	}), "the uploader defers proxyReader.Close(): when all attempts fail the serialiser's pipe write fails instead of blocking", "the uploader no longer closes the read end of the upload pipe on every exit: when the upload fails the serialiser blocks in resp.Write forever and so does the backend-facing handler")
 	errChan := func(fn *ssa.Function, what string) {
 		var sends []ChanOp
@@ -513,13 +513,13 @@ func c06Unblock(c *Ctx, p *Prog) {
 		c.Check("C06.E", what+":error-channel-capacity", p, sends[0].Instr.Pos(), ok && mk != nil && int(size) >= len(sends) && !loop, fmt.Sprintf("error channel capacity %d ≥ %d send site(s), none in a loop: the send never blocks", size, len(sends)), fmt.Sprintf("the %s goroutine can block sending its error (capacity %d const=%v, %d send sites, loop=%v): its deferred pipe close never runs", what, size, ok, len(sends), loop))
 		c.Check("C06.E", what+":closes-error-channel", p, fn.Pos(), deferredOnEntry(fn, func(d *ssa.Defer) bool {
 			b, isB := d.Call.Value.(*ssa.Builtin)
-			return isB && b.Name() == "close" && SameValue(d.Call.Args[0], ch)
+			return isB && b.Name() == "close" && SameValue(PArgs(&d.Call)[0], ch)
 		}), "the error channel is closed on every exit: Close() never blocks on it", "the "+what+" goroutine no longer closes its error channel on every exit: responseForwarder.Close() blocks forever on success")
 	}
 	errChan(g1, "uploader")
 	// serialiser goroutine
 	c.Check("C06.E", "serialiser:closes-pipe-writer", p, g2.Pos(), deferredOnEntry(g2, func(d *ssa.Defer) bool {
-		return CalleeName(&d.Call) == "(*io.PipeWriter).Close" && PathOf(d.Call.Args[0]) == "result1:io.Pipe" && SameValue(d.Call.Args[0], Args(CallOf(write))[1])
+		return CalleeName(&d.Call) == "(*io.PipeWriter).Close" && PathOf(PArgs(&d.Call)[0]) == "result1:io.Pipe" && SameValue(PArgs(&d.Call)[0], Args(CallOf(write))[1])
 	}), "the serialiser defers proxyWriter.Close(): the upload body ends", "the serialiser no longer closes the write end of the upload pipe on every exit: the upload never terminates")
 	errChan(g2, "serialiser")
 	// CloseWithError on the failure branch of resp.Write
@@ -550,7 +550,7 @@ func c06Unblock(c *Ctx, p *Prog) {
 	if cw := c.need(p, "C06.E", "agent/utils.(*streamingResponseWriter).CloseWithError"); cw != nil {
 		ok := false
 		for _, call := range Calls(cw, "(*io.PipeReader).CloseWithError") {
-			if PathOf(CallOf(call).Args[0]) == P(cw, 0)+".bodyReader" && PathOf(CallOf(call).Args[1]) == P(cw, 1) {
+			if PathOf(PArgs(CallOf(call))[0]) == P(cw, 0)+".bodyReader" && PathOf(PArgs(CallOf(call))[1]) == P(cw, 1) {
 				ok = true
 			}
 		}
@@ -631,7 +631,7 @@ func c06Retain(c *Ctx, p *Prog) {
 	if rd == nil {
 		return
 	}
-	recvP, bufP := rd.Params[0], rd.Params[1]
+	recvP, bufP := ParamAt(rd, 0), ParamAt(rd, 1)
 	var copies []*ssa.Call
 	var src *ssa.Call
 	EachInstr(rd, func(i ssa.Instruction) {
@@ -660,10 +660,10 @@ func c06Retain(c *Ctx, p *Prog) {
 		return nil
 	}
 	for _, cp := range copies {
-		if isBufSlice(cp.Call.Args[1]) != nil {
+		if isBufSlice(PArgs(&cp.Call)[1]) != nil {
 			replay = cp
 		}
-		if isBufSlice(cp.Call.Args[0]) != nil {
+		if isBufSlice(PArgs(&cp.Call)[0]) != nil {
 			retain = cp
 		}
 	}
@@ -758,19 +758,19 @@ func c06Retain(c *Ctx, p *Prog) {
 			c.OK("C06.B", fmt.Sprintf("read:retains-the-fresh-bytes[k=%d]", t.k), p, retain.Pos(), "no fresh bytes in a replay-only call: nothing to retain")
 			continue
 		}
-		lo, hi, ok := window(src.Call.Args[0], e)
+		lo, hi, ok := window(PArgs(&src.Call)[0], e)
 		c.Check("C06.B", fmt.Sprintf("read:source-fills-after-replayed[k=%d]", t.k), p, src.Pos(), ok && lo == t.k && hi == -1, "the source reads into p[k:]", fmt.Sprintf("with %d bytes replayed the source is read into p[%d:%d] rather than p[%d:]: replayed bytes are overwritten or a gap is left", t.k, lo, hi, t.k))
-		lo, hi, ok = window(retain.Call.Args[1], e)
+		lo, hi, ok = window(PArgs(&retain.Call)[1], e)
 		c.Check("C06.B", fmt.Sprintf("read:retains-the-fresh-bytes[k=%d]", t.k), p, retain.Pos(), ok && lo == t.k && hi == t.k+t.n, "the bytes retained for replay are p[k:k+n], exactly those the source just produced", fmt.Sprintf("with k=%d bytes replayed and n=%d bytes read from the source, the buffer retains p[%d:%d] instead of p[%d:%d]: a later retry replays the wrong bytes (the upload body differs between attempts)", t.k, t.n, lo, hi, t.k, t.k+t.n))
 	}
 	// destination of the retain copy: buf[writeHead:]
-	dst := isBufSlice(retain.Call.Args[0])
+	dst := isBufSlice(PArgs(&retain.Call)[0])
 	e := env(0, 5, 10)
 	dlo, ok1 := bound(dst.Low, e, 0)
 	c.Check("C06.B", "read:retains-at-writeHead", p, retain.Pos(), ok1 && dlo == 10 && dst.High == nil, "retained bytes are appended at writeHead", "retained bytes are not appended at buf[writeHead:]: the stored prefix is no longer the stream prefix")
 	// replay source: buf[readHead:writeHead] into p
-	rs := isBufSlice(replay.Call.Args[1])
-	okr := replay.Call.Args[0] == ssa.Value(bufP) && rs.Low != nil && rs.High != nil
+	rs := isBufSlice(PArgs(&replay.Call)[1])
+	okr := PArgs(&replay.Call)[0] == ssa.Value(bufP) && rs.Low != nil && rs.High != nil
 	if okr {
 		_, f1, o1 := FieldLoad(rs.Low)
 		_, f2, o2 := FieldLoad(rs.High)
